@@ -1504,9 +1504,12 @@ impl<'a> Gen<'a> {
     /// later rows of the same clause would then depend on statement-internal visibility
     fn merge_pattern_keys(pat: &PathPat) -> Vec<String> {
         let mut ks: Vec<String> = pat.start.props.iter().map(|(k, _)| k.clone()).collect();
+        // likewise the labels the pattern tests (entries `\0label:<L>`)
+        ks.extend(pat.start.labels.iter().map(|l| format!("\u{0}label:{l}")));
         for (r, n) in &pat.steps {
             ks.extend(r.props.iter().map(|(k, _)| k.clone()));
             ks.extend(n.props.iter().map(|(k, _)| k.clone()));
+            ks.extend(n.labels.iter().map(|l| format!("\u{0}label:{l}")));
         }
         ks
     }
@@ -1519,7 +1522,7 @@ impl<'a> Gen<'a> {
                 SetItem::Replace { .. } => false,
                 SetItem::Merge { value: Expr::Map(m), .. } => !m.iter().any(|(k, _)| avoid.contains(k)),
                 SetItem::Merge { .. } => false,
-                SetItem::Labels { .. } => true,
+                SetItem::Labels { labels, .. } => !labels.iter().any(|l| avoid.contains(&format!("\u{0}label:{l}"))),
             });
         }
         items
@@ -1593,9 +1596,26 @@ impl<'a> Gen<'a> {
         cs
     }
 
+    fn remove_items(&mut self, env: &Env) -> Vec<RemoveItem> {
+        let ents = env.entities();
+        let mut items = Vec::new();
+        if !ents.is_empty() {
+            for _ in 0..1 + self.t.draw(2) {
+                let (v, t) = ents[self.t.draw(ents.len())];
+                if t == Ty::Node && self.t.chance(40) {
+                    items.push(RemoveItem::Labels { target: v.clone(), labels: vec![self.t.pick(&LABELS).to_string()] });
+                } else {
+                    let (k, _) = self.key_and_type();
+                    items.push(RemoveItem::Prop { target: v.clone(), key: k.to_string() });
+                }
+            }
+        }
+        items
+    }
+
     pub fn update_statement(&mut self) -> Vec<Clause> {
         let mut env = Env::default();
-        let kind = self.t.weighted(&[14, 14, 12, 10, 12, 16, 6, 10, 6]);
+        let kind = self.t.weighted(&[14, 14, 12, 10, 12, 16, 6, 10, 6, 10]);
         match kind {
             // standalone CREATE
             0 => {
@@ -1691,19 +1711,7 @@ impl<'a> Gen<'a> {
             // prefix + REMOVE
             6 => {
                 let mut cs = self.update_prefix(&mut env);
-                let ents = env.entities();
-                let mut items = Vec::new();
-                if !ents.is_empty() {
-                    for _ in 0..1 + self.t.draw(2) {
-                        let (v, t) = ents[self.t.draw(ents.len())];
-                        if t == Ty::Node && self.t.chance(40) {
-                            items.push(RemoveItem::Labels { target: v.clone(), labels: vec![self.t.pick(&LABELS).to_string()] });
-                        } else {
-                            let (k, _) = self.key_and_type();
-                            items.push(RemoveItem::Prop { target: v.clone(), key: k.to_string() });
-                        }
-                    }
-                }
+                let items = self.remove_items(&env);
                 if items.is_empty() {
                     cs.push(Clause::Create { pats: vec![PathPat { start: NodePat::default(), steps: vec![] }] });
                 } else {
@@ -1732,6 +1740,32 @@ impl<'a> Gen<'a> {
                 }
                 let detach = any_node && !self.t.chance(8);
                 cs.push(Clause::Delete { detach, exprs });
+                cs
+            }
+            // prefix + two or three SET / REMOVE clauses over the same variables: every clause
+            // works on what the clauses before it left behind
+            9 => {
+                let mut cs = self.update_prefix(&mut env);
+                let read = Self::scalar_env(&env);
+                let n = 2 + self.t.draw(2);
+                let before = cs.len();
+                for _ in 0..n {
+                    if self.t.chance(50) {
+                        let k = 1 + self.t.draw(2);
+                        let items = self.set_items(&env, &read, k);
+                        if !items.is_empty() {
+                            cs.push(Clause::Set { items });
+                        }
+                    } else {
+                        let items = self.remove_items(&env);
+                        if !items.is_empty() {
+                            cs.push(Clause::Remove { items });
+                        }
+                    }
+                }
+                if cs.len() == before {
+                    cs.push(Clause::Create { pats: vec![PathPat { start: NodePat::default(), steps: vec![] }] });
+                }
                 cs
             }
             // prefix + several update clauses
